@@ -306,7 +306,7 @@ func init() {
 
 	register(&propDef{id: "C06",
 		projection: "state before/after a rejected Provide or Decorate (real versus real), model state after it, and every later observation of the history",
-		kinds:      []string{"notrace", "snap.reg", "snap.decs", "snap.foreign", "info.onreject", "crash", "verdict", "exec.extra", "exec.inreg", "viz.misbehaved"},
+		kinds:      []string{"notrace", "followup", "snap.reg", "snap.decs", "snap.foreign", "info.onreject", "crash", "verdict", "exec.extra", "exec.inreg", "viz.misbehaved"},
 		run: genericRun(stagePlan{
 			covers: []coverPlan{
 				randCover("reject", tweak(small, func(f *fam.Features) { f.Types = 2; f.PNamed = 0.05; f.Ctors = 3; f.Decs = 1; f.PInvalid = 0.7 }), rec, 40, 400, 0),
@@ -430,7 +430,7 @@ func init() {
 
 	register(&propDef{id: "C14",
 		projection: "panics escaping any API call, rejected inputs changing state, Visualize / String misbehaving, verdict of the front end on every enumerated signature",
-		kinds:      []string{"crash", "viz.misbehaved", "notrace", "processcrash", "verdict.provide", "verdict.decorate", "info.onreject"},
+		kinds:      []string{"crash", "viz.misbehaved", "notrace", "followup", "processcrash", "verdict.provide", "verdict.decorate", "info.onreject"},
 		extra: func(k, d string) bool {
 			return contains(d, "foreignpanic")
 		},
